@@ -1,5 +1,5 @@
 SPECIFICATION Spec
 CONSTANTS
   Mode = "valid"
-  MaxText = 4
+  MaxText = 5
   MaxSet = 2
